@@ -760,7 +760,65 @@ func Cmp(c Cond) (x ssa.Value, op token.Token, y ssa.Value, ok bool) {
 			op = token.LSS
 		}
 	}
-	return b.X, op, b.Y, true
+	// canonical operand order: a constant goes on the right (`255 < len(s)` is
+	// read as `len(s) > 255`), so that rules match either spelling
+	x, y = b.X, b.Y
+	if isConstOperand(x) && !isConstOperand(y) {
+		x, y = y, x
+		switch op {
+		case token.LSS:
+			op = token.GTR
+		case token.LEQ:
+			op = token.GEQ
+		case token.GTR:
+			op = token.LSS
+		case token.GEQ:
+			op = token.LEQ
+		}
+	}
+	return x, op, y, true
+}
+
+func isConstOperand(v ssa.Value) bool {
+	v = Strip(v)
+	_, ok := v.(*ssa.Const)
+	return ok
+}
+
+// EmptyTest decodes the spellings of "string/slice x is (not) empty":
+// x == "", x != "", len(x) == 0, len(x) != 0, len(x) > 0, len(x) >= 1,
+// len(x) < 1, len(x) <= 0 (with the condition's polarity applied).
+func EmptyTest(c Cond) (x ssa.Value, isEmpty bool, ok bool) {
+	a, op, b, okc := Cmp(c)
+	if !okc {
+		return nil, false, false
+	}
+	if s, isS := ConstString(b); isS && s == "" {
+		switch op {
+		case token.EQL:
+			return a, true, true
+		case token.NEQ:
+			return a, false, true
+		}
+		return nil, false, false
+	}
+	k, isK := ConstInt(b)
+	call, isCall := Resolve(a).(*ssa.Call)
+	if !isK || !isCall {
+		return nil, false, false
+	}
+	bi, isB := call.Call.Value.(*ssa.Builtin)
+	if !isB || bi.Name() != "len" {
+		return nil, false, false
+	}
+	arg := call.Call.Args[0]
+	switch {
+	case op == token.EQL && k == 0, op == token.LEQ && k == 0, op == token.LSS && k == 1:
+		return arg, true, true
+	case op == token.NEQ && k == 0, op == token.GTR && k == 0, op == token.GEQ && k == 1:
+		return arg, false, true
+	}
+	return nil, false, false
 }
 
 // ---------------------------------------------------------------- positions in the CFG
